@@ -59,7 +59,12 @@ def check_calls(case, obs):
         return []
     if case["kind"] == "run":
         g0 = mc.canon_net(case["net"])
-        return [("c11_check", [g0[0], g0[1], mc.run_graphs(obs), obs["after"]])]
+        calls = [("c11_check", [g0[0], g0[1], mc.run_graphs(obs), obs["after"]])]
+        o2 = mc.second_obs(obs)
+        if o2 is not None:
+            # second call on the same object: judged against ITS input (the invariant is transitive)
+            calls.append(("c11_check", [o2["input"][0], o2["input"][1], mc.run_graphs(o2), o2["after"]]))
+        return calls
     return [("c11_check_swap", mc.swap_tree(case, q, it)) for q, it in mc.accepted_items(case, obs)]
 
 
@@ -89,12 +94,20 @@ def check_verdict(case, obs, raws):
             return f"rewire() raised {obs['status'][1]} on a clean network with a full-support target"
         if not raws:
             return "checker did not run"
-        i, why, j = raws[0]
-        if i != -1:
-            return f"graph after change {i}: {WHY.get(why, why)}"
-        if j != -1:
-            return _shape(obs, f"graph after change {j}")
-        return None
+        o2 = mc.second_obs(obs)
+        if o2 is not None and o2["status"][0] == 2:
+            return f"second rewire() call on the same object raised {o2['status'][1]}"
+        shape = None
+        for k, (o, raw) in enumerate(zip([obs, o2], raws)):
+            tag = "" if k == 0 else "second rewire() call on the same object: "
+            if not o.get("deep_unchanged", True):
+                return f"{tag}{WHY[6]} (attribute data / iteration order)"
+            i, why, j = raw
+            if i != -1:
+                return f"{tag}graph after change {i}: {WHY.get(why, why)}"
+            if j != -1 and shape is None:
+                shape = _shape(obs, f"{tag}graph after change {j}")
+        return shape
     shape = None
     for (q, it), r in zip(mc.accepted_items(case, obs), raws):
         tag = f"accepted swap u0={q[0]} e0={q[1]} v0={q[2]} e1={q[3]} proposals {it['props']}"
